@@ -112,7 +112,7 @@ MODES = {
 
 
 def install_state(layer, state, mode, key, mac_len, block, I=None,
-                  fixed_nonce=None):
+                  fixed_nonce=None, stateless=False, pool=None):
     """fill a ConnectionState the way calcPendingStates/changeXState would,
     with model cipher/MAC objects named after `key` (same name = same key)"""
     if mode == "null":
@@ -121,10 +121,11 @@ def install_state(layer, state, mode, key, mac_len, block, I=None,
         state.macContext = StubMac("mac" + key, mac_len,
                                    128 if mac_len == 48 else 64)
         if mode == "stream":
-            state.encContext = StubStreamCipher(key)
+            state.encContext = StubStreamCipher(key, stateless, pool)
         else:
             state.encContext = StubBlockCipher(
-                key, block, "3des" if block == 8 else "aes128")
+                key, block, "3des" if block == 8 else "aes128",
+                stateless, pool)
         state.encryptThenMAC = (mode == "cbc-etm")
     elif mode == "aead-explicit":
         state.encContext = StubAEAD(key, "aes128gcm", 12, 16)
